@@ -85,6 +85,12 @@ fn find_new_idxs(num_params: usize, cat_sizes: &[usize], cat_idxs: &[usize]) -> 
     new_param_idxs
 }
 
+/// Verification hook (cfg `smartcore_verif` only): exposes the private index computation.
+#[cfg(smartcore_verif)]
+pub fn verif_find_new_idxs(num_params: usize, cat_sizes: &[usize], cat_idxs: &[usize]) -> Vec<usize> {
+    find_new_idxs(num_params, cat_sizes, cat_idxs)
+}
+
 fn validate_col_is_categorical<T: Categorizable>(data: &[T]) -> bool {
     for v in data {
         if !v.is_valid() {
